@@ -131,7 +131,7 @@ def strip_iter(e):
     return e
 
 
-def unbalanced(fn, guard, data, ref_methods=()):
+def unbalanced(fn, guard, data, ref_methods=(), strict=False):
     """Each data member that changes length in a statement list must change exactly as the guard does there, and a
     change of the guard must be accompanied by at least one data member (a class with several typed data vectors, of
     which one is in use, changes the one in use)."""
@@ -146,6 +146,11 @@ def unbalanced(fn, guard, data, ref_methods=()):
     bad = []
     for (li, base), g in sorted(groups.items(), key=lambda kv: kv[1]["line"] or 0):
         wrong = {m: o for m, o in g["data"].items() if sorted(o) != sorted(g["guard"])}
+        if strict:
+            # a record kept as columns: every column changes whenever one does
+            for m in data:
+                if m not in g["data"] and g["guard"]:
+                    wrong[m] = []
         if wrong or (g["guard"] and not g["data"]):
             bad.append((g["line"], base, g["guard"], wrong or {}))
     return got, bad
